@@ -253,6 +253,20 @@ def stores_to_name(func, name):
     return out
 
 
+def sync_accept_sites(repo):
+    """[(function, CFG node, Assign)] where the sync worker takes a connection off a listener: `client, addr = <x>.accept()`
+    in a method of SyncWorker (accept() itself, or the run loops with accept() folded into them)"""
+    out = []
+    cls = repo.cls("gunicorn.workers.sync.SyncWorker")
+    for f in cls.methods.values():
+        for s in f.cfg.stmts(ast.Assign):
+            v = s.ast.value
+            if isinstance(v, ast.Call) and isinstance(v.func, ast.Attribute) and v.func.attr == "accept" and not v.args and isinstance(s.ast.targets[0], ast.Tuple) \
+                    and len(s.ast.targets[0].elts) == 2 and not (isinstance(v.func.value, ast.Name) and v.func.value.id == "self"):
+                out.append((f, s, s.ast))
+    return out
+
+
 def through_locals(func, e, stop=(), depth=0):
     """sub-expressions of `e`, seen through the locals that are assigned exactly once (`n = len(data)` ... `n > limit`)"""
     for x in ast.walk(e):
